@@ -365,8 +365,10 @@ impl<'a> FnSig<'a> {
 
 impl<'a> FmtVisitor<'a> {
     fn format_item(&mut self, item: &Item<'_>) {
-        self.buffer.push_str(format_safety(item.safety));
-        self.buffer.push_str(&item.abi);
+        // (through `push_str`, where the lines of the buffer are counted: an ABI literal may hold
+        // a line break)
+        self.push_str(format_safety(item.safety));
+        self.push_str(&item.abi);
 
         let snippet = self.snippet(item.span);
         let brace_pos = snippet.find_uncommented("{").unwrap();
